@@ -14,14 +14,16 @@ SHARDS = {"quick": 8, "thorough": 16}
 RULE = (
     "histories: a C15 message stream (<= 30 messages over the small device/property/element universe) interleaved with callback "
     "registrations and removals at arbitrary stream positions; callbacks have every combination of device/vector/element filter "
-    "(absent, matching, non-matching) and event type (any, value, state, definition), are plain or coroutine functions, may raise, "
+    "(absent, matching, non-matching) and event type (any, value, state, definition), are plain or coroutine functions - given as a "
+    "function, a functools.partial, a bound method or a callable object -, may raise, "
     "may remove themselves when first called (one-shot), and are removed by id or by criteria. 2-5 callbacks are registered up "
     "front with filters biased towards 'absent' (otherwise a one-shot callback is never followed by another callback matching the "
     "same event). Oracle: a filter-less probe registered first gives the dispatched sequence; per message it must equal the event "
     "multiset the reference interpreter derives (state/value events iff changed, old = previous new, per definition epoch; "
     "initial None->v events required when v is not None, tolerated otherwise; one definition event per def); every other "
     "callback's log equals the probe's sequence filtered by its predicate and registration window; the last value event of every "
-    "element carries its current value. Non-trivial: >= 2 callbacks with different filters and >= 1 removal mid-stream."
+    "element carries its current value; where a BLOB update declares a size that contradicts its payload the client may take it or "
+    "leave it, and a value event is required exactly when it took it. Non-trivial: >= 2 callbacks with different filters and >= 1 removal mid-stream."
 )
 ASSUMPTIONS = [
     "in-dispatch removal is generated only as self-removal",
